@@ -390,7 +390,16 @@ func H_two_watchers() {
 	verifMonitor("no-global-writes", true)
 	verifKs[0].nIno = W + 1
 	p := verifCtlPaths[verifChoose("path", len(verifCtlPaths))]
-	switch verifChoose("op", 5) {
+	switch verifChoose("op", 6) {
+	case 5:
+		// a closed Watcher is inert: its descriptor number may already belong to another Watcher
+		go w1.readEvents()
+		_ = w1.Close()
+		a0, r0 := verifKs[0].addCalls, verifKs[0].rmCalls
+		_ = w1.Remove(verifTable[0].path)
+		_ = w1.Remove(p)
+		_ = w1.Add(p)
+		verifAssert(verifKs[0].addCalls == a0 && verifKs[0].rmCalls == r0, "a closed Watcher issues no system calls: its descriptor number may have been re-used by another Watcher, whose watches it would remove")
 	case 0:
 		_ = w1.Add(p)
 	case 1:
